@@ -212,6 +212,11 @@ def load_known():
     return json.load(open(p)).get("findings", [])
 
 
+def finding_open(fid):
+    """Is the finding listed as open in the committed known_findings.json?  (a fixed entry suppresses nothing)"""
+    return any(f.get("id") == fid and f.get("status") == "open" for f in load_known())
+
+
 class Verdict:
     """Collects what a check run found and writes evidence / prints the protocol lines."""
 
